@@ -16,6 +16,7 @@
 #include <fstream>
 #include <iostream>
 #include <map>
+#include <mutex>
 #include <sstream>
 #include <string>
 #include <vector>
@@ -150,10 +151,11 @@ int main(int argc, char** argv) {
         int shots = job->has("shots") ? (int)job->at("shots").num() : 1;
         bool echoOn = job->has("echo") ? job->at("echo").b : true;
         bool logOn = job->has("log") ? job->at("log").b : true;
-        bool wantEvents = false, wantFinal = false, wantQasm = false;
+        bool wantEvents = false, wantFinal = false, wantQasm = false, allEvents = false;
         if (job->has("want"))
             for (auto& w : job->at("want").a) {
                 if (w->s == "events") wantEvents = true;
+                if (w->s == "events_all") { wantEvents = true; allEvents = true; }
                 if (w->s == "final") wantFinal = true;
                 if (w->s == "qasm") wantQasm = true;
             }
@@ -181,8 +183,12 @@ int main(int argc, char** argv) {
         std::string shotsJson = "[";
         std::string extra;
         std::vector<std::string> events;
+        static std::mutex evMutex;   // events arrive from the interpreter and from the timer thread
         if (wantEvents)
-            runtime::verif::sink() = [&](const std::string& l) { events.push_back(l); };
+            runtime::verif::sink() = [&](const std::string& l) {
+                std::lock_guard<std::mutex> g(evMutex);
+                events.push_back(l);
+            };
         else
             runtime::verif::sink() = nullptr;
         ualarm(0, 0);
@@ -238,6 +244,7 @@ int main(int argc, char** argv) {
                         std::string swhat;
                         int sl = 0, sc = 0;
                         size_t nEvents = 0;
+                        long stmtCount = 0;
                         {
                             runtime::RuntimeEvaluator ev(logOn);
                             ev.setEcho(echoOn);
@@ -250,6 +257,7 @@ int main(int argc, char** argv) {
                                 sc = e.column;
                             }
                             nEvents = events.size();  // teardown events are not part of the run
+                            stmtCount = runtime::verif::gc().counter;
                             shot += "\"status\":\"" + sstatus + "\"";
                             shot += ",\"echo\":" + jsonLines(cap.out.str());
                             shot += ",\"tracked\":{";
@@ -296,9 +304,10 @@ int main(int argc, char** argv) {
                         }  // evaluator destroyed here (teardown is part of the run)
                         if (wantEvents) {
                             shot += ",\"events\":[";
-                            for (size_t i = 0; i < nEvents && i < events.size(); ++i) shot += (i ? "," : "") + events[i];
+                            for (size_t i = 0; i < (allEvents ? events.size() : nEvents) && i < events.size(); ++i) shot += (i ? "," : "") + events[i];
                             shot += "]";
                         }
+                        shot += ",\"stmts\":" + std::to_string(stmtCount);
                         if (sstatus != "ok") {
                             shot += ",\"what\":" + mj::esc(swhat) + ",\"line\":" + std::to_string(sl) + ",\"col\":" + std::to_string(sc);
                             status = sstatus;
